@@ -1,4 +1,4 @@
-(* GENERATED on every run by translate/pyreject2coq.py from /tmp/tie-reject-wt/psiaudio/pipeline.py
+(* GENERATED on every run by translate/pyreject2coq.py from /repo/psiaudio/pipeline.py
    (coroutine reject_epochs, lines 1395-1457; PipelineData.n_channels / n_epochs) - do not edit.
    Vocabulary: coq/Reject/NumpyPrims.v.  Tie theorems: coq/Reject/ProofsTie.v.
    pinned expression `np.asarray(data, dtype=np.double)` -> np_asarray_double data
@@ -65,7 +65,7 @@ ret tt))))
 | BPlain _ _ =>
 bind (if (negb ((np_ndim data) =? 3))
 then raise EValue
-else bind (np_shape_at data (-1)) (fun t3 =>
+else bind (np_shape_at data 1) (fun t3 =>
 bind (if (negb (t3 =? 1))
 then raise EValue
 else ret tt) (fun _ =>
